@@ -97,7 +97,7 @@ def run(workdir, root, cfg_text, root_text=None, workers=16, simulate=None, dept
 
 
 def _tail(s, n=40):
-    lines = s.strip().splitlines()
+    lines = [l[:300] for l in s.strip().splitlines() if not l.lstrip().startswith('"{')]
     return "\n".join(lines[-n:])
 
 
